@@ -4,7 +4,7 @@
 cd /verif
 TIER=${1:-quick}
 for d in seeded/*/; do
-  id=$(basename "$d"); prop=${id%-*}
+  id=$(basename "$d"); case "$id" in *-dropped) continue;; esac; prop=${id%-*}
   if ! git -C /repo apply --check "/verif/$d/patch.diff" 2>/dev/null; then echo "$id: PATCH-DOES-NOT-APPLY"; continue; fi
   git -C /repo apply "/verif/$d/patch.diff"
   out=$(./check "$prop" "$TIER" 2>&1)
